@@ -23,10 +23,10 @@ def infer_resource(facts, cls='tulz::rwp::Resource'):
     m = re.match(r'std::(?:deque|list|vector)<([^,>]+)', qs[0]['ctype'])
     entry_cls = m.group(1).strip() if m else None
     ec = facts.cls(entry_cls) if entry_cls else None
-    if ec is None or len(ec['fields']) != 2: return None, None, None, 'queue entries are not a two-member record'
+    if ec is None or len(ec['fields']) not in (2, 3): return None, None, None, 'queue entries are not a two- or three-member record'
     e_enum = [f for f in ec['fields'] if not _is_int(f['ctype'])]
     e_int = [f for f in ec['fields'] if _is_int(f['ctype'])]
-    if len(e_enum) != 1 or len(e_int) != 1: return None, None, None, 'queue entry is not {operation type, integral bound}'
+    if len(e_enum) != 1 or len(e_int) != len(ec['fields']) - 1: return None, None, None, 'queue entry is not {operation type, integral bound [, request count]}'
     enum_t = e_enum[0]['ctype']
     ops = [f for f in fields if f['ctype'] == enum_t]
     ints = [f for f in fields if _is_int(f['ctype'])]
@@ -97,26 +97,37 @@ def infer_resource(facts, cls='tulz::rwp::Resource'):
     entry_map = {e_enum[0]['name']: 'type', e_int[0]['name']: 'upperBound'}
     # what the integral member of a queue entry holds, by what is stored into it: the ticket counter (an upper bound on the tickets
     # of the batch) or small constants / increments (the number of requests in the batch)
-    ename = e_int[0]['name']; nxt_name = list(nxt)[0]
+    nxt_name = list(nxt)[0]
     def mentions_counter(x): return x is not None and any(y.k == 'member' and y.field and y.name == nxt_name and y.d.get('class') == cls for y in x.walk())
     def is_small(x):
         while x is not None and x.k == 'cast': x = x.n('sub')
-        return x is not None and x.k == 'int'
-    votes = set()
-    for f in methods:
-        for n in f.nodes():
-            if n.k == 'initlist' and n.d.get('fields') and ename in n.d['fields']:
-                a = n.ns('args'); i = n.d['fields'].index(ename)
-                v = a[i] if i < len(a) else None
-                votes.add('bound' if mentions_counter(v) else ('count' if is_small(v) else '?'))
-            if n.k == 'binop' and n.op in ('=', '+=') and n.n('lhs') is not None and n.n('lhs').k == 'member' and n.n('lhs').field and n.n('lhs').name == ename and n.n('lhs').d.get('class') == entry_cls:
-                v = n.n('rhs')
-                votes.add('bound' if (mentions_counter(v) and n.op == '=') else ('count' if (is_small(v) and n.op == '+=') or (is_small(v) and n.op == '=') else '?'))
-            if n.k == 'unop' and n.op == '++' and n.n('sub') is not None and n.n('sub').k == 'member' and n.n('sub').field and n.n('sub').name == ename and n.n('sub').d.get('class') == entry_cls:
-                votes.add('count')
-    if votes == {'bound'}: rep_ = 'bound'
-    elif votes == {'count'}: rep_ = 'count'
-    else: return None, None, None, f'what the integral member {ename} of a queue entry holds is not recognised (stores: {sorted(votes)})'
+        return x is None or x.k in ('int', 'valueinit')          # a member left out of the initialiser is value-initialised (0)
+    def votes_for(ename):
+        votes = set()
+        for f in methods:
+            for n in f.nodes():
+                if n.k == 'initlist' and n.d.get('fields') and ename in n.d['fields']:
+                    a = n.ns('args'); i = n.d['fields'].index(ename)
+                    v = a[i] if i < len(a) else None
+                    votes.add('bound' if mentions_counter(v) else ('count' if is_small(v) else '?'))
+                if n.k == 'binop' and n.op in ('=', '+=') and n.n('lhs') is not None and n.n('lhs').k == 'member' and n.n('lhs').field and n.n('lhs').name == ename and n.n('lhs').d.get('class') == entry_cls:
+                    v = n.n('rhs')
+                    votes.add('bound' if (mentions_counter(v) and n.op == '=') else ('count' if (is_small(v) and n.op == '+=') or (is_small(v) and n.op == '=') else '?'))
+                if n.k == 'unop' and n.op == '++' and n.n('sub') is not None and n.n('sub').k == 'member' and n.n('sub').field and n.n('sub').name == ename and n.n('sub').d.get('class') == entry_cls:
+                    votes.add('count')
+        return votes
+    if len(e_int) == 1:
+        ename = e_int[0]['name']; votes = votes_for(ename)
+        if votes == {'bound'}: rep_ = 'bound'
+        elif votes == {'count'}: rep_ = 'count'
+        else: return None, None, None, f'what the integral member {ename} of a queue entry holds is not recognised (stores: {sorted(votes)})'
+    else:
+        # both kept side by side: the ticket bound of the batch and the number of its requests
+        kinds = {f_['name']: votes_for(f_['name']) for f_ in e_int}
+        b_ = [k for k, v in kinds.items() if v == {'bound'}]; c_ = [k for k, v in kinds.items() if v == {'count'}]
+        if len(b_) != 1 or len(c_) != 1: return None, None, None, f'what the integral members of a queue entry hold is not recognised ({ {k: sorted(v) for k, v in kinds.items()} })'
+        entry_map = {e_enum[0]['name']: 'type', b_[0]: 'upperBound', c_[0]: 'count'}
+        rep_ = 'dual'
     return field_map, (entry_cls, entry_map, rep_), fn_map, ''
 
 
@@ -133,7 +144,7 @@ def renamed_facts(facts, facts_dir, cls, field_map, entry, fn_map):
             if n.get('k') == 'member' and n.get('field'):
                 if n.get('class') == cls and n['name'] in field_map: n['name'] = field_map[n['name']]
                 elif n.get('class') == entry_cls and n['name'] in entry_map: n['name'] = entry_map[n['name']]
-            if n.get('k') == 'initlist' and n.get('fields') and set(n['fields']) == set(entry_map): n['fields'] = [entry_map[x] for x in n['fields']]
+            if n.get('k') == 'initlist' and n.get('fields') and set(n['fields']) <= set(entry_map) and n['fields']: n['fields'] = [entry_map[x] for x in n['fields']]
             for key in ('callee', 'calleeq'):
                 v = n.get(key)
                 if isinstance(v, str) and v.startswith(cls + '::'):
